@@ -145,6 +145,10 @@ def route(tokeniser: Any) -> list[Route]:
         else:
             raise ValueError(f'flow: unknown command "{command}"')
 
+    family_error = flow_nlri.family_error()
+    if family_error:
+        raise ValueError(family_error)
+
     # Recreate NLRI with correct SAFI if RD is present
     # (avoids SAFI mutation which is incompatible with class-level SAFI)
     if flow_nlri.rd is not RouteDistinguisher.NORD and flow_nlri.safi != SAFI.flow_vpn:
